@@ -76,6 +76,7 @@ class StreamRun:
         self.connect_fault = False
         self.reads: dict[int, asyncio.Task] = {}
         self.nread = 0
+        self.is_connected = False
         if kind == "tcp":
             self.tr = TCPTransport("host.invalid", 5003)
         else:
@@ -130,10 +131,16 @@ class StreamRun:
 
     def do(self, cmd: list) -> None:
         op = cmd[0]
+        unconnected_probe = op in ("read", "write") and len(cmd) > 1 and cmd[1] == "unconnected"
+        if op in ("read", "write", "feed", "eof", "ioerror", "disconnect") and not unconnected_probe and not self.is_connected:
+            return  # the model only uses a connected transport (use before the first connect is probed explicitly)
         if op == "connect":
+            if self.is_connected:
+                return  # the model connects only a transport that is not connected
             self.connect_fault = not cmd[1]
             with self._patched():
                 res = self.call(self.tr.connect())
+            self.is_connected = (res == "ok")
             self.events.append({"op": "connect", "fault": not cmd[1], "res": res})
         elif op in ("read", "write") and len(cmd) > 1 and cmd[1] == "unconnected":
             coro = self.tr.read() if op == "read" else self.tr.write("1;255;3;0;2;\n")
@@ -167,9 +174,12 @@ class StreamRun:
                 self.writer.fault = "none"
             self.events.append({"op": "write", "s": [ord(c) for c in text], "fault": fault, "res": res, "peer": peer})
         elif op == "disconnect":
+            if self.reads:
+                return  # the model disconnects only when no read is outstanding
             if self.writer is not None:
                 self.writer.fault = cmd[1]
             self.events.append({"op": "disconnect", "fault": cmd[1], "res": self.call(self.tr.disconnect())})
+            self.is_connected = False
         self.settle()
 
     def finish(self) -> dict:
